@@ -233,6 +233,55 @@ func genPlacement(r *rand.Rand, maxKeys int) ruleSet {
 	return ruleSet{Engine: pickEngine(r), Rules: b.rules, Shape: "placement/" + shape}
 }
 
+// genRemoval: a rule removes later rules of the transaction (ctl:ruleRemoveById) before a jumping rule
+// runs; removed rules must not count for skip:N and must not be evaluated after the jump.
+func genRemoval(r *rand.Rand, maxKeys int) ruleSet {
+	b := &builder{r: r, maxKeys: maxKeys}
+	p := 1 + r.Intn(5)
+	if r.Intn(3) == 0 {
+		b.rule(1+r.Intn(5), 1, nil, false)
+	}
+	q := p
+	if p > 1 && r.Intn(3) == 0 {
+		q = 1 + r.Intn(p) // the removing rule may run in an earlier phase
+	}
+	b.rule(q, 1+r.Intn(2), nil, r.Intn(2) == 0)
+	remover := len(b.rules) - 1
+	var acts []actJ
+	switch r.Intn(4) {
+	case 0, 1:
+		acts = []actJ{{A: "skip", N: 1 + r.Intn(3)}}
+	case 2:
+		acts = []actJ{{A: "skipAfter", M: "M1"}}
+	}
+	b.rule(p, 1, acts, r.Intn(2) == 0)
+	first := b.nextID + 1
+	k := 3 + r.Intn(3)
+	for i := 0; i < k; i++ {
+		if r.Intn(5) == 0 {
+			b.marker("M1")
+		}
+		var a []actJ
+		if r.Intn(6) == 0 {
+			a = b.flowAct(true)
+		}
+		b.rule(p, 1, a, r.Intn(3) == 0)
+	}
+	if p < 5 {
+		b.rule(p+1+r.Intn(5-p), 1, nil, r.Intn(2) == 0)
+	}
+	last := b.nextID
+	li := r.Intn(len(b.rules[remover].Links))
+	for n := 1 + r.Intn(2); n > 0; n-- {
+		id := first + r.Intn(last-first+1)
+		if r.Intn(12) == 0 {
+			id = 0 // ctl:ruleRemoveById=0 removes the SecMarkers (their ID_ is 0)
+		}
+		b.rules[remover].Links[li].Rm = append(b.rules[remover].Links[li].Rm, id)
+	}
+	return ruleSet{Engine: pickEngine(r), Rules: b.rules, Shape: "removal"}
+}
+
 func hasMarkerAfterJumper(rules []ruleJ, m string) bool {
 	seenJumper := false
 	for _, r := range rules {
@@ -284,7 +333,11 @@ func generate(cfg vh.Config) []ruleSet {
 	exhaustiveKeys := cfg.Pick(4, 6)
 	for i := 0; total < budget; i++ {
 		var s ruleSet
-		switch i % 4 {
+		switch i % 6 {
+		case 4:
+			s = genRemoval(r, 2+r.Intn(exhaustiveKeys-1))
+		case 5:
+			s = genRemoval(r, 48)
 		case 0: // few keys: every subset of matches
 			s = genRandom(r, 2+r.Intn(exhaustiveKeys-1))
 		case 1:
